@@ -118,29 +118,6 @@ Fixpoint forgets (p : alg) : bool :=
   | BGP _ | Values _ => false
   end.
 
-(* expression shapes *)
-Fixpoint has_var_or_order (e : expr) : bool :=
-  match e with
-  | EVar _ => true
-  | ECon t => negb (is_lit t)
-  | ECmp op a b => has_var_or_order a || has_var_or_order b
-                   || match op with OpLt | OpGt => true | _ => false end
-  | EAnd a b | EOr a b => has_var_or_order a || has_var_or_order b
-  | ENot a => has_var_or_order a
-  | EBound _ | EExists _ _ => false
-  end.
-
-(* F-C04h: an && whose left operand can raise, in a position where an error and
-   false differ (under a negation, or as the value of BIND) *)
-Fixpoint and_order (neg : bool) (e : expr) : bool :=
-  match e with
-  | EAnd a b => (neg && has_var_or_order a) || and_order neg a || and_order neg b
-  | EOr a b => and_order neg a || and_order neg b
-  | ENot a => and_order true a
-  | ECmp _ a b => and_order true a || and_order true b
-  | _ => false
-  end.
-
 Fixpoint has_exists (e : expr) : bool :=
   match e with
   | ECmp _ a b | EAnd a b | EOr a b => has_exists a || has_exists b
@@ -199,22 +176,6 @@ Definition vis_ok (pushed : list var) (exc : option (list var)) (q : alg) (e : e
   forallb (fun v => (memv v fv && memv v (cert q)) || (negb (memv v fv) && negb (memv v (maybe q))))
           (inter (evars e) pushed).
 
-(* does every solution of the pattern need at least one triple of the active graph? *)
-Fixpoint needs_triple (p : alg) : bool :=
-  match p with
-  | BGP ts => match ts with [] => false | _ => true end
-  | Join _ a b => needs_triple a || needs_triple b
-  | LeftJoin _ a _ _ => needs_triple a
-  | Filter _ _ _ q => needs_triple q
-  | Union a b => needs_triple a && needs_triple b
-  | Minus a _ => needs_triple a
-  | Extend _ q _ _ => needs_triple q
-  | Values _ => false
-  | Project q _ => needs_triple q
-  | Graph _ _ => false          (* an inner GRAPH switches the active graph *)
-  | Distinct q => needs_triple q
-  end.
-
 Fixpoint scan (names : list term) (inex : bool) (pushed : list var) (p : alg) {struct p} : N :=
   match p with
   | BGP _ => 0
@@ -227,13 +188,11 @@ Fixpoint scan (names : list term) (inex : bool) (pushed : list var) (p : alg) {s
   | LeftJoin pv a b e =>
       (if forgets a && nonempty pushed then 4 else 0)
       |>| (if nonempty (inter (inter (evars e) pushed) (maybe a ++ maybe b)) then 5 else 0)
-      |>| (if has_exists e && nonempty (inter (evars e) pushed) then 10 else 0)
       |>| (match pv with
            | None => if nonempty pushed then 6 else 0
            | Some vs =>
                if subsetv (maybe a) vs
-                  && (negb (nonempty pushed)
-                      || (subsetv (inter vs pushed) (cert a) && nonempty (cert a)))
+                  && (negb (nonempty pushed) || subsetv (inter vs pushed) (cert a))
                then 0 else 6
            end)
       |>| scan names inex pushed a
@@ -241,9 +200,6 @@ Fixpoint scan (names : list term) (inex : bool) (pushed : list var) (p : alg) {s
       |>| scan_e names (pushed ++ maybe a ++ maybe b) e
   | Filter nis fv e q =>
       (if nis || vis_ok pushed fv q e then 0 else 7)
-      |>| (if negb nis && has_exists e && nonempty pushed && negb (nonempty (cert q))
-              && nonempty (inter (evars e) pushed) then 10 else 0)
-      |>| (if and_order false e then 8 else 0)
       |>| scan names inex pushed q
       |>| scan_e names (if nis then pushed ++ maybe q
                   else inter pushed (match fv with Some l => l | None => [] end) ++ maybe q) e
@@ -256,19 +212,12 @@ Fixpoint scan (names : list term) (inex : bool) (pushed : list var) (p : alg) {s
   | Extend xv q v e =>
       (if memv v pushed || memv v (maybe q) then 1 else 0)
       |>| (if vis_ok pushed xv q e then 0 else 7)
-      |>| (if has_exists e && nonempty pushed && negb (nonempty (cert q))
-              && nonempty (inter (evars e) pushed) then 10 else 0)
-      |>| (if and_order true e then 8 else 0)
       |>| scan names inex pushed q
       |>| scan_e names (inter pushed (match xv with Some l => l | None => [] end) ++ maybe q) e
   | Project q vs =>
       (if subsetv (inter pushed (allvars q)) vs then 0 else 4)
       |>| scan names inex pushed q
-  | Graph gt q =>
-      (if negb (needs_triple q)
-          && match gt with Tm t => negb (existsb (N.eqb t) names) | Vr v => memv v pushed end
-       then 11 else 0)
-      |>| scan names inex pushed q
+  | Graph _ q => scan names inex pushed q
   | Distinct q => scan names inex pushed q
   end
 with scan_e (names : list term) (pushed : list var) (e : expr) {struct e} : N :=
